@@ -21,6 +21,7 @@ CLAUSES = {
     "C11": BASE + ["route", "progress"],
     "C13": BASE + ["dispo", "result", "progress"],
     "C14": BASE + ["once"],
+    "C12": BASE + ["ttlclock"],
 }
 OWN = {"C02": ["dispo"], "C03": ["stop", "dispo"], "C04": ["retry"], "C06": ["recur"], "C09": ["limit", "progress"],
        "C10": ["mlimit", "progress"], "C11": ["route", "progress"], "C13": ["result"]}
@@ -371,6 +372,48 @@ def redis_part_c03(ck: Check, tier: str, rng) -> None:
                          {"check": "worker", "scenario": allsc[i], "rejected_at": pos, "context": explain(traces[i], pos, 14)})
 
 
+def fam_c12(tier, rng):
+    """time-to-live through the worker: retried, rescheduled (also eagerly, by the actor) and recurring messages"""
+    scs = []
+    for n in range({"quick": 16, "thorough": 150}[tier]):
+        ttl = rng.choice([1000, 2500, 4000])
+        out = rng.choice(["e_reschedule", "e_reschedule", "raise", "ok", "e_retry"])
+        mx = rng.choice([0, 1, 2])
+        job = {"id": "j", "actor": "job", "script": [out, rng.choice(["ok", "raise", "e_reschedule"]), "ok"], "retries": mx, "ttl_ms": ttl,
+               "dur_ms": [rng.choice([0, 300, ttl - 100, ttl + 200])], "at_ms": rng.choice([0, 500])}
+        if rng.random() < 0.4:
+            job["defer_by_ms"] = rng.choice([1000, 2000])
+        scs.append(default_scenario(jobs=[job], actors={"job": {"variant": "dep", "policy": ["const", rng.choice([0, 500, ttl + 500])]}},
+                                    worker={"tasks_limit": 2, "messages_limit": 0, "grace_s": 0.3}, horizon_ms=4 * ttl + 3000))
+    return scs
+
+
+def extra_c12(ck: Check, tier: str, rng) -> None:
+    chk = CLAUSES["C12"]
+    scs = fam_c12(tier, rng)
+    with pool() as ex:
+        recs = list(ex.map(_record, [(sc, chk, []) for sc in scs], chunksize=2))
+    traces = [t for (t, _) in recs]
+    v = tlc.validate_traces("Trace_Worker", "Trace_Worker.cfg", traces)
+    ck.add_tlc(v.result, f"Trace_Worker: {len(traces)} worker runs with time-to-live, retries, (eager) reschedules (clauses {chk})")
+    ck.traces += len(traces)
+    ck.notes["worker_ttl_runs"] = len(traces)
+    for sc, (t, info) in zip(scs, recs):
+        ck.case("wttl" + str(hash(str([(e.get("e"), e.get("op"), e.get("i"), e.get("v"), e.get("out")) for e in t]))), nontrivial=bool(info["exec_count"]))
+    ck.sample({"scenario": scs[0], "note": "ttl through retries / reschedules"})
+    if v.rejected:
+        idx = sorted(v.rejected)
+        other_tr = [[dict(traces[i][0], chk=[c for c in traces[i][0]["chk"] if c not in ("ttlclock", "ttl")])] + traces[i][1:] for i in idx]
+        vb = tlc.validate_traces("Trace_Worker", "Trace_Worker.cfg", other_tr)
+        for n, i in enumerate(idx):
+            pos = v.rejected[i]
+            if n in vb.rejected:
+                ck.drift.append({"note": "rejected for a reason outside this property's clauses", "scenario": scs[i]})
+            elif len(ck.violations) < 15:
+                ck.violation(f"worker run with time-to-live rejected at event {pos}: {traces[i][pos - 1] if pos <= len(traces[i]) else 'end'}",
+                             {"check": "worker", "scenario": scs[i], "rejected_at": pos, "context": explain(traces[i], pos, 12)})
+
+
 FAMS = {"C13": fam_c13, "C02": fam_c02, "C03": fam_c03, "C04": fam_c04, "C06": fam_c06, "C09": fam_c09, "C10": fam_c10, "C11": fam_c11}
 
 
@@ -390,6 +433,13 @@ def run(pid: str, tier: str, seed: int, *, replay: dict | None = None) -> int:
     if replay is None:
         model_check(ck, pid, tier)
         lap("abstract worker model checked")
+    if replay is not None and pid == "C12":
+        t, info = _record((replay["scenario"], CLAUSES["C12"], []))
+        v = tlc.validate_traces("Trace_Worker", "Trace_Worker.cfg", [t])
+        ck.traces += 1
+        if v.rejected:
+            ck.violation(f"replayed run rejected at event {v.rejected[0]}", {"check": "worker", "scenario": replay["scenario"]})
+        return ck.finish()
     if replay is not None and replay.get("check") == "worker-c14":
         pid_clauses = BASE + ["once"]
         t, info = _record((replay["scenario"], pid_clauses, []))
